@@ -1157,12 +1157,48 @@ func forgeListsMode(vs tmconsensus.ValidatorSet, g *gen, mode int) tmconsensus.V
 // request (hook point mirror.vote.beforeAdd), message M2 = {T: b} is delivered completely;
 // then M1 continues: its part for T is now stale, its part for X is new. Whatever the kernel
 // makes of that, the views and what the consumers are told must agree afterwards.
-func (g *gen) overlappingVotes(vh uint64, vr uint32) {
+func (g *gen) overlappingVotes(vh uint64, vr uint32, cr uint32) {
 	if g.recording || g.tape != nil {
 		return
 	}
 	set := g.w.set(vh)
 	if set.n() < 2 {
+		return
+	}
+	if g.pick(3) == 0 {
+		// second schedule: a vote for the next round is parked between the mirror's merge and
+		// the kernel request while the voting round commits; when it continues, its round is a
+		// later round of the committing height
+		kind := kindPrevote
+		if g.pick(2) == 0 {
+			kind = kindPrecommit
+		}
+		one := g.w.minoritySubset(g.rng, vh)
+		if len(one) == 0 {
+			return
+		}
+		target := ""
+		if g.pick(2) == 0 {
+			target = g.randHash()
+		}
+		m1 := g.validVote(kind, vh, vr+1, target, one[:1])
+		m1.desc = "next-round-vote(held across the commit)"
+		g.w.noteDelivered(voteKey{kind, vh, vr + 1, target}, one[:1])
+		hold := newVoteHold()
+		done := make(chan struct{})
+		go func() {
+			defer close(done)
+			g.doSendVoteHeld(m1, false, hold)
+		}()
+		select {
+		case <-hold.arrived:
+			g.cs.count("overlap.next-round-vote-parked-across-commit")
+			g.commitRound(vh, vr, cr, g.pick(4))
+			close(hold.release)
+			<-done
+		case <-done:
+			g.cs.count("overlap.first-call-returned-before-the-hook")
+		}
 		return
 	}
 	kind := kindPrevote
@@ -1495,8 +1531,8 @@ func (g *gen) attack() {
 	}
 	g.attacks++
 	h := int64(vh) + int64(g.off())
-	if h < 1 {
-		h = 1
+	if h < 0 {
+		h = 0 // height 0 is encodable too: before the first commit the committing view is the zero view
 	}
 	r := int64(vr) + int64(g.off())
 	if r < 0 {
@@ -1512,7 +1548,7 @@ func (g *gen) attack() {
 	}
 	switch x := g.pick(100); {
 	case x < 4:
-		g.overlappingVotes(vh, vr)
+		g.overlappingVotes(vh, vr, cr)
 	case x < 40:
 		kind := kindPrevote
 		if g.pick(2) == 0 {
